@@ -318,10 +318,15 @@ def explore(ctype, depth, quick, seed):
                 for v in vs:
                     res.violations.append(Violation(v['signature'], v['what'], v['case']))
                 if c in seen:
-                    if seen[c] != m and not vs:
-                        raise HarnessError(f'C14 canonicalisation unsound: same directory bytes, different model: {h2}')
+                    if seen[c][0] != m and not vs:
+                        # the bytes of the cache directory determine every entry (value or damage class); two histories that
+                        # leave the same bytes but different dictionary models mean an operation wrote somewhere else than
+                        # under its own (cache, key) - or left an entry in a state its history does not explain
+                        res.violations.append(Violation(f'{ctype} cache: directory content does not correspond to the operations performed (entry written under another cache/key or not replaced)',
+                                                        f'history {h2} leaves the same directory bytes as {seen[c][1]} although the dictionary models differ',
+                                                        {'kind': 'hist', 'ctype': ctype, 'hist': h2}))
                     continue
-                seen[c] = m
+                seen[c] = (m, h2)
                 if not vs:
                     nxt.append(h2)
         nxt.sort(key=repr)
